@@ -896,7 +896,7 @@ def reply_cases(quick):
     errnos = ERRNOS_QUICK if quick else list(range(1, 134))
     out = []
     for op in reply_ops():
-        for source in ('model', 'c-echo', 'c-capped'):
+        for source in ('model', 'model-2nd-socket', 'c-echo', 'c-capped'):
             out.append(dict(op=op, source=source, errno=0))
             for e in errnos:
                 out.append(dict(op=op, source=source, errno=e))
@@ -929,7 +929,7 @@ def run_reply_unit(unit):
     cases = [c for c in cases if first[json.dumps(c['op'], sort_keys=True)] is not None]
     specs = []
     for c in cases:
-        if c['source'] != 'model':
+        if not c['source'].startswith('model'):
             s = {'kind': 'nlerr', 'error': -c['errno'], 'req': first[json.dumps(c['op'], sort_keys=True)].hex()}
             if c['source'] == 'c-capped':
                 s['echo'] = 0
@@ -947,7 +947,10 @@ def run_reply_unit(unit):
             doc = dict(kind='reply', case=c, seed=unit['seed'])
             res['evaluations'] += 1
             frame = None
-            if c['source'] == 'model':
+            if c['source'].startswith('model'):
+                # 'model-2nd-socket': as in the running daemon, the XFRM event socket holds the port ID that equals the
+                # pid, so the reply is addressed to the kernel-chosen port ID of the request socket
+                ep.nl_event_open = c['source'] == 'model-2nd-socket'
                 ep.kernel.fail_next(0, errno)
                 if op['api'] == 'delete_sa':     # something to delete, so that errno 0 really is an ack
                     ep.kernel.sad[(str(ipa(op['daddr'])), op['proto'], bytes.fromhex(op['spi']))] = {}
@@ -956,11 +959,11 @@ def run_reply_unit(unit):
                 req0 = first[json.dumps(op, sort_keys=True)]
                 model_request = ep.kernel.request
 
-                def answer(data, frame=frame, req0=req0, ep=ep, model_request=model_request):
+                def answer(data, portid=None, frame=frame, req0=req0, ep=ep, model_request=model_request):
                     if len(ep.kernel.log) == 0 and bytes(data) == req0:
-                        model_request(data)          # keep the log; the reply is the C program's
+                        model_request(data, portid)          # keep the log; the reply is the C program's
                         return frame
-                    return model_request(data)
+                    return model_request(data, portid)
                 ep.kernel.request = answer
                 # the frame read back by Xfrm.parse_message
                 try:
